@@ -9,10 +9,15 @@ import snapshots
 
 
 def _env(seed=None, libxml=1):
-    e = dict(os.environ, ASAN_OPTIONS="detect_leaks=1:abort_on_error=0", HWLOC_HIDE_ERRORS="2", HWLOC_LIBXML=str(libxml), LC_ALL="C")
+    """`libxml` is the process configuration code: bit 0 = HWLOC_LIBXML; codes 2, 3 additionally run the whole process under
+    HWLOC_CPUKINDS_RANKING=none (the CPU-kind side-structure invariant "efficiencies all -1 or 0..nr-1" must hold under the documented
+    ranking strategies too: C02-r8); the code travels with every replay / shrink of the case"""
+    e = dict(os.environ, ASAN_OPTIONS="detect_leaks=1:abort_on_error=0", HWLOC_HIDE_ERRORS="2", HWLOC_LIBXML=str(libxml % 2), LC_ALL="C")
     for k in list(e):
         if k.startswith("HWLOC_") and k not in ("HWLOC_HIDE_ERRORS", "HWLOC_LIBXML"):
             del e[k]
+    if libxml >= 2:
+        e["HWLOC_CPUKINDS_RANKING"] = "none"
     if seed is not None:
         e["VERIF_SEED"] = str(seed)
     return e
@@ -59,7 +64,7 @@ def script_fails(binp, d, script, libxml):
 
 def annotate(binp, d, script, libxml):
     r, o, c, m = run_script(binp, d, script, libxml)
-    out = ["# engine history (HWLOC_LIBXML=%d): script lines; replay: harness h_history replay <script> <ops> <c.out>" % libxml]
+    out = ["# engine history (HWLOC_LIBXML=%d%s): script lines; replay: harness h_history replay <script> <ops> <c.out>" % (libxml % 2, " HWLOC_CPUKINDS_RANKING=none" if libxml >= 2 else "")]
     out += script
     out.append("# judged steps (op -> C return -> model verdict):")
     op, ret = "", ""
@@ -81,7 +86,7 @@ def one_run(binp, workdir, idx, seed, n, sources):
     d = os.path.join(workdir, "r%d" % idx)
     os.makedirs(d, exist_ok=True)
     ops, cout, mout = [os.path.join(d, x) for x in ("ops.txt", "c.out", "m.out")]
-    lx = idx % 2
+    lx = idx % 2 + (2 if idx % 8 in (4, 5) else 0)
     r = run([binp, "gen", str(n), sources, ops, cout], env=_env(seed, lx))
     res = {"seed": seed, "rc": r.returncode, "san": r.stdout[-3000:], "libxml": lx, "cases": [], "nlines": 0}
     if os.path.exists(ops):
